@@ -100,6 +100,29 @@ type Ast struct {
 
 	// if-ok ({% if CtxVar, CtxOK := vok(CtxSrc).(static); [!]CtxOK %}): Then / Else / HasElse as for if
 	Neg bool
+
+	// Sp selects among the accepted spellings of one construct (bits, see the sp* constants); 0 = the
+	// common spelling. The parsed tree does not depend on it.
+	Sp    uint
+	SpSet bool
+}
+
+const (
+	spAssign   = 1 << iota // loop headers: "=" instead of ":="
+	spNoBlank              // "k,v" in range headers, "a,b" in argument lists
+	spCompact              // counting-loop header without blanks: for i:=0;i<3;i++
+	spKeyword              // context / cntr instead of ctx / counter
+	spTightOp              // no blanks around the comparison operator
+	spTightTag             // no blanks inside the tag delimiters
+	spAsType               // "as static" instead of ".(static)"
+)
+
+func (a *Ast) sp(bit uint) bool { return a.Sp&bit != 0 }
+
+// tight removes the blanks next to the delimiters of every tag of s.
+func tight(s string) string {
+	s = strings.ReplaceAll(s, "{% ", "{%")
+	return strings.ReplaceAll(s, " %}", "%}")
 }
 
 func (a AArg) String() string {
@@ -113,7 +136,9 @@ func (a AArg) String() string {
 	return v
 }
 
-func printMods(ms []AMod) string {
+func printMods(ms []AMod) string { return printModsSp(ms, ", ") }
+
+func printModsSp(ms []AMod, comma string) string {
 	var sb strings.Builder
 	for _, m := range ms {
 		sb.WriteString("|")
@@ -123,7 +148,7 @@ func printMods(ms []AMod) string {
 			inKV := false
 			for i, a := range m.Args {
 				if i > 0 {
-					sb.WriteString(", ")
+					sb.WriteString(comma)
 				}
 				if a.KVName != "" && !inKV {
 					sb.WriteString("{")
@@ -142,8 +167,14 @@ func printMods(ms []AMod) string {
 	return sb.String()
 }
 
-func (c *ACond) String() string {
+func (c *ACond) String() string { return c.StringSp(" ") }
+
+// StringSp prints the condition with the given text on either side of the operator.
+func (c *ACond) StringSp(b string) string {
 	if c.Helper != "" {
+		if (c.Helper == "len" || c.Helper == "cap") && b == "" {
+			return c.Helper + "(" + c.HArg + ")" + c.Op + c.R
+		}
 		return c.Helper + "(" + c.HArg + ")" + condTail(c)
 	}
 	l, r := c.L, c.R
@@ -153,7 +184,7 @@ func (c *ACond) String() string {
 	if c.RLit {
 		r = c.RQuote + r + c.RQuote
 	}
-	return l + " " + c.Op + " " + r
+	return l + b + c.Op + b + r
 }
 
 func condTail(c *ACond) string {
@@ -173,13 +204,41 @@ func printNodes(ns []*Ast) string {
 
 // Print renders the concrete syntax.
 func (a *Ast) Print() string {
+	s := a.print1()
+	return s
+}
+
+func (a *Ast) opb() string {
+	if a.sp(spTightOp) {
+		return ""
+	}
+	return " "
+}
+
+// own applies the tag-delimiter spelling to the tags this node itself writes (not to its children's).
+func (a *Ast) own(tag string) string {
+	if a.sp(spTightTag) {
+		return tight(tag)
+	}
+	return tag
+}
+
+func (a *Ast) print1() string {
+	comma := ", "
+	if a.sp(spNoBlank) {
+		comma = ","
+	}
+	assign := ":="
+	if a.sp(spAssign) {
+		assign = "="
+	}
 	switch a.K {
 	case "text":
 		return string(a.Text)
 	case "comment":
 		return "{#" + string(a.Text) + "#}"
 	case "print":
-		s := "{%" + a.Letters + "= " + a.Path + printMods(a.Mods)
+		s := "{%" + a.Letters + "= " + a.Path + printModsSp(a.Mods, comma)
 		if a.RawMod {
 			s += "|raw"
 		}
@@ -191,13 +250,13 @@ func (a *Ast) Print() string {
 		}
 		return s + " %}"
 	case "ternary":
-		return "{%" + a.Letters + "= " + a.Cond.String() + " ? " + a.Then[0].Path + " : " + a.Else[0].Path + " %}"
+		return "{%" + a.Letters + "= " + a.Cond.StringSp(a.opb()) + " ? " + a.Then[0].Path + " : " + a.Else[0].Path + " %}"
 	case "if":
-		s := "{% if " + a.Cond.String() + " %}" + printNodes(a.Then)
+		s := a.own("{% if "+a.Cond.StringSp(a.opb())+" %}") + printNodes(a.Then)
 		if a.HasElse {
-			s += "{% else %}" + printNodes(a.Else)
+			s += a.own("{% else %}") + printNodes(a.Else)
 		}
-		return s + "{% endif %}"
+		return s + a.own("{% endif %}")
 	case "ifok":
 		arg := a.CtxSrc
 		if a.CtxLit {
@@ -207,7 +266,11 @@ func (a *Ast) Print() string {
 		if a.Neg {
 			neg = "!"
 		}
-		s := fmt.Sprintf("{%% if %s, %s := vok(%s).(static); %s%s %%}", a.CtxVar, a.CtxOK, arg, neg, a.CtxOK) + printNodes(a.Then)
+		typ := ".(static)"
+		if a.sp(spAsType) {
+			typ = " as static"
+		}
+		s := fmt.Sprintf("{%% if %s, %s := vok(%s)%s; %s%s %%}", a.CtxVar, a.CtxOK, arg, typ, neg, a.CtxOK) + printNodes(a.Then)
 		if a.HasElse {
 			s += "{% else %}" + printNodes(a.Else)
 		}
@@ -226,7 +289,7 @@ func (a *Ast) Print() string {
 				}
 				s += "{% case " + v + " %}"
 			} else {
-				s += "{% case " + c.Cond.String() + " %}"
+				s += "{% case " + c.Cond.StringSp(a.opb()) + " %}"
 			}
 			s += printNodes(c.Body)
 		}
@@ -235,15 +298,18 @@ func (a *Ast) Print() string {
 		}
 		return s + "{% endswitch %}"
 	case "cloop":
-		s := fmt.Sprintf("{%% for %s := %s; %s %s %s; %s%s", a.Var, a.Init, a.Var, a.Op, a.Lim, a.Var, a.Step)
+		s := fmt.Sprintf("{%% for %s %s %s; %s %s %s; %s%s", a.Var, assign, a.Init, a.Var, a.Op, a.Lim, a.Var, a.Step)
+		if a.sp(spCompact) {
+			s = fmt.Sprintf("{%% for %s%s%s;%s%s%s;%s%s", a.Var, assign, a.Init, a.Var, a.Op, a.Lim, a.Var, a.Step)
+		}
 		if a.Sep != "" {
 			s += " " + a.SepKw + " " + a.Sep
 		}
-		s += " %}" + printNodes(a.Body)
+		s = a.own(s+" %}") + printNodes(a.Body)
 		if a.HasElse {
-			s += "{% else %}" + printNodes(a.Else)
+			s += a.own("{% else %}") + printNodes(a.Else)
 		}
-		return s + "{% endfor %}"
+		return s + a.own("{% endfor %}")
 	case "rloop":
 		vars := a.Key
 		if a.Var != "" {
@@ -251,26 +317,26 @@ func (a *Ast) Print() string {
 			if k == "" {
 				k = "_"
 			}
-			vars = k + ", " + a.Var
+			vars = k + comma + a.Var
 		}
-		s := fmt.Sprintf("{%% for %s := range %s", vars, a.Src)
+		s := fmt.Sprintf("{%% for %s %s range %s", vars, assign, a.Src)
 		if a.Sep != "" {
 			s += " " + a.SepKw + " " + a.Sep
 		}
-		s += " %}" + printNodes(a.Body)
+		s = a.own(s+" %}") + printNodes(a.Body)
 		if a.HasElse {
-			s += "{% else %}" + printNodes(a.Else)
+			s += a.own("{% else %}") + printNodes(a.Else)
 		}
-		return s + "{% endfor %}"
+		return s + a.own("{% endfor %}")
 	case "break", "lazybreak", "continue":
 		s := "{% " + a.K
 		if a.N > 0 {
 			s += fmt.Sprintf(" %d", a.N)
 		}
 		if a.Cond != nil {
-			s += " if " + a.Cond.String()
+			s += " if " + a.Cond.StringSp(a.opb())
 		}
-		return s + " %}"
+		return a.own(s + " %}")
 	case "ctx":
 		src := a.CtxSrc
 		if a.CtxLit {
@@ -280,18 +346,26 @@ func (a *Ast) Print() string {
 		if a.CtxOK != "" {
 			v += ", " + a.CtxOK
 		}
-		return "{% ctx " + v + " = " + src + printMods(a.CtxMods) + " %}"
+		kw := "ctx"
+		if a.sp(spKeyword) {
+			kw = "context"
+		}
+		return a.own("{% " + kw + " " + v + " = " + src + printModsSp(a.CtxMods, comma) + " %}")
 	case "counter":
+		kw := "counter"
+		if a.sp(spKeyword) {
+			kw = "cntr"
+		}
 		switch a.CntOp {
 		case "=":
-			return fmt.Sprintf("{%% counter %s = %d %%}", a.Var, a.CntArg)
+			return a.own(fmt.Sprintf("{%% %s %s = %d %%}", kw, a.Var, a.CntArg))
 		case "++", "--":
-			return fmt.Sprintf("{%% counter %s%s %%}", a.Var, a.CntOp)
+			return a.own(fmt.Sprintf("{%% %s %s%s %%}", kw, a.Var, a.CntOp))
 		default:
-			return fmt.Sprintf("{%% counter %s%s%d %%}", a.Var, a.CntOp, a.CntArg)
+			return a.own(fmt.Sprintf("{%% %s %s%s%d %%}", kw, a.Var, a.CntOp, a.CntArg))
 		}
 	case "include":
-		return "{% " + a.IncKw + " " + strings.Join(a.Names, " ") + " %}"
+		return a.own("{% " + a.IncKw + " " + strings.Join(a.Names, " ") + " %}")
 	case "exit":
 		return "{% exit %}"
 	case "region":
